@@ -339,6 +339,12 @@ def all_obligations():
                  functions=['make_tree (table construction)', 'retrieve (prefix decoding expression)'], flags=['--unwind', '1030', '--unwinding-assertions'],
                  expect=['prefix decoding: the symbol and length found', 'make_tree: a complete code is accepted'], replayable=True, replay_src='decode.c',
                  assumed=['section extraction: the 13/16 lines of the decoding expression are copied verbatim; the surrounding loop of retrieve() is dropped']))
+    for slow in (0, 1):
+        A(Ob(name=f'decode.run_accumulate.{"slow" if slow else "fast"}', props=['C08', 'C05', 'C06'], kind='lemma', harness='h_decode.c', entry='h_run_accumulate', defines={'RA_SLOW': str(slow)},
+             what='retrieve(), zero-run accumulation (' + ('slow' if slow else 'fast') + ' path copy, extracted verbatim): from every state with run >= 2^shift - 1 and shift <= 21 the shift is defined, '
+                  'nothing overflows, the invariant is preserved and RUNA/RUNB add 1 or 2 times 2^position; a run that outgrew 900000 accepts no more run symbols',
+             functions=['retrieve (run accumulation)'], flags=['--unwind', '4', '--unwinding-assertions'], expect=['RUNA/RUNB add 1 or 2 times', 'the invariant run >= 2'], replayable=True,
+             assumed=['the invariant holds initially (run in {0,1}, shift 0, set where a run starts) -- by inspection of the three assignment sites']))
     # ---------------- decode.c decode(): inverse BWT (C06 O6.4, C01 O1.2 decoder side)
     for n, tier in ((3, 'quick'), (4, 'thorough')):
         A(Ob(name=f'decode.ibwt.n{n}', props=['C06', 'C01', 'C05', 'C08'], kind='bounded', tier=tier, harness='h_emit.c', entry='h_decode_ibwt', extra_srcs=['src/crctab.c'], solver='cadical',
